@@ -3,7 +3,7 @@
    field-centric choice); spec Solr/Edismax_Spec.v (dismax per document).  Equality is pointwise Qeq. *)
 From Coq Require Import ZArith QArith List.
 From SA Require Import Base.Prelude Index.Index View.View Solr.MM Solr.MM_Spec Solr.MM_Proofs
-  Solr.Edismax Solr.Edismax_Spec Solr.Edismax_Proofs.
+  Solr.Edismax Solr.Edismax_Spec Solr.Edismax_Proofs Solr.Edismax_AnySim Solr.Edismax_AnySim_Proofs.
 From SA Require Import View.View_Phrase2 Solr.Edismax_Indexed.
 Import ListNotations.
 
@@ -36,3 +36,45 @@ Print Assumptions C09_indexed_query_field_score.
 
 (* Assumptions of the remaining named statements of this file (the gate requires one per statement). *)
 Print Assumptions C09_and_is_100pct.
+
+(* ================= any per-field similarity =================
+   Solr/Edismax_AnySim.v: the per-field per-term score vectors  post_arr.score(term, similarity=similarity[field])
+   are an abstract input (a list of `afield`: optional boost + one exact score vector per query term of the field,
+   ZERO terms allowed); model = the code's running max / sum, tie, mm filter, term- vs field-centric choice;
+   spec = dismax per document.  wf_anysim: vectors have one entry per row, at most NMAX terms per field, mm spec
+   in the float-exact range of C11 and -- on the field-centric path only -- non-negative scores and boosts
+   (the code's np.max over fields has no zero seed).  No hypothesis on tie; none on signs for term-centric queries. *)
+Theorem C09_any_similarity : forall n fields mm tie, wf_anysim n fields mm ->
+  exists r, edismax_anysim n fields mm tie = AOk r /\ veq r (anysim_spec n fields mm tie).
+Proof. exact anysim_model_is_spec. Qed.
+Print Assumptions C09_any_similarity.
+
+(* the same with min-should-match abstract (any mmf / mms that agree on the clause counts that occur): no float,
+   no Flocq -- closed under the global context *)
+Theorem C09_any_similarity_any_mm : forall (mmf mms : Z -> Z) n fields tie,
+  (forall f v, In f fields -> In v (af_scores f) -> length v = n) ->
+  (forall k, In k (term_counts fields) -> mmf (Z.of_nat k) = mms (Z.of_nat k)) ->
+  (a_is_term_centric fields = false ->
+     (forall f v, In f fields -> In v (af_scores f) -> Forall (fun x => (0 <= x)%Q) v) /\
+     (forall f, In f fields -> (0 <= boostq (af_boost f))%Q)) ->
+  exists r, edismax_anysim_g mmf n fields tie = AOk r /\ veq r (anysim_spec_g mms n fields tie).
+Proof. exact anysim_g_is_spec. Qed.
+Print Assumptions C09_any_similarity_any_mm.
+
+(* the binary32 BM25 model above is an instance: its query-field score is the generic model applied to the table
+   of its own BM25 score vectors (when those calls succeed) *)
+Theorem C09_bm25_is_instance : forall idf n q S,
+  all_scores idf 0 (eq_fields q) (is_term_centric (eq_fields q)) = AOk S ->
+  qf_model idf n q =
+  edismax_anysim n (if is_term_centric (eq_fields q) then table_tc S else table_fc (eq_fields q) S)
+                 (eq_mm q) (eq_tie q).
+Proof. exact qf_model_instance. Qed.
+Print Assumptions C09_bm25_is_instance.
+
+(* satisfiable: 2 fields x 3 terms x 3 rows with a row zeroed out by mm (Solr/Edismax_AnySim_Proofs.v, AnySimEx) *)
+Example C09_any_similarity_example :
+  wf_anysim 3 [AnySimEx.f0; AnySimEx.f1] AnySimEx.mm3 /\ a_is_term_centric [AnySimEx.f0; AnySimEx.f1] = true /\
+  exists r, edismax_anysim 3 [AnySimEx.f0; AnySimEx.f1] AnySimEx.mm3 AnySimEx.tie = AOk r /\
+            Checks.veqb r (anysim_spec 3 [AnySimEx.f0; AnySimEx.f1] AnySimEx.mm3 AnySimEx.tie) = true /\
+            Checks.veqb r [(1#2) + (5#8) + 2; 0; (3 + (1#10) * (5#2)) + (1#3) + (7#2)]%Q = true.
+Proof. exact AnySimEx.anysim_tc_example. Qed.
